@@ -147,6 +147,9 @@ fn routes_agree(mode: GameMode, pts: &[PathControlPoint], len: Option<f64>) -> R
         if b.dist().to_bits() != want.dist().to_bits() {
             return Err("BorrowedCurve::dist differs from the owned curve's".into());
         }
+        if let Some(l) = want.lengths().iter().find(|l| b.idx_of_dist(**l) != want.idx_of_dist(**l)) {
+            return Err(format!("BorrowedCurve::idx_of_dist({l}) (a cumulative length of the curve) differs from the owned curve's"));
+        }
         // the owned route on the same used buffers
         let o = Curve::new(mode, pts, len, &mut bufs);
         if !(o.path().len() == want.path().len()
@@ -717,6 +720,9 @@ fn c18(toks: &[&str]) -> String {
                     let c = Curve::new(req.mode, pts, l, &mut cl);
                     same_curve(c.path(), c.lengths(), &want)
                 };
+                // the index search answers alike on the owned and on the borrowed curve, in particular AT each cumulative length (runs of
+                // equal lengths: seed C18-v, a partition_point on one side and a binary search on the other)
+                let same_idx = |f: &dyn Fn(f64) -> usize| want.lengths().iter().all(|l| f(*l) == want.idx_of_dist(*l) && f(*l + 0.5) == want.idx_of_dist(*l + 0.5));
                 let ok = clone_ok && if kind == "o" {
                     let c = Curve::new(req.mode, pts, l, &mut bufs);
                     let back = c.as_borrowed_curve().to_owned_curve();
@@ -726,12 +732,15 @@ fn c18(toks: &[&str]) -> String {
                         && same_scalars(c.dist(), &|q| c.progress_to_dist(q), &want)
                         && same_scalars(bc.dist(), &|q| bc.progress_to_dist(q), &want)
                         && same_scalars(back.dist(), &|q| back.progress_to_dist(q), &want)
+                        && same_idx(&|d| c.idx_of_dist(d)) && same_idx(&|d| bc.idx_of_dist(d)) && same_idx(&|d| back.idx_of_dist(d))
+                        && bc.lengths().len() == want.lengths().len()
                 } else {
                     let c = BorrowedCurve::new(req.mode, pts, l, &mut bufs);
                     let own = c.to_owned_curve();
                     same_curve(c.path(), c.lengths(), &want) && same_curve(own.path(), own.lengths(), &want)
                         && same_scalars(c.dist(), &|q| c.progress_to_dist(q), &want)
                         && same_scalars(own.dist(), &|q| own.progress_to_dist(q), &want)
+                        && same_idx(&|d| c.idx_of_dist(d)) && same_idx(&|d| own.idx_of_dist(d))
                 };
                 (ok, pts.is_empty())
             }
